@@ -3,7 +3,7 @@
 expr := ["lit", repr] | ["var", name] | ["list", [e]] | ["tuple", [e]] | ["dict", [[repr_key, e]]]
       | ["call", fname, [e], {kw: e}, [e]|None (star), {k: e}|None (double star)]
       | ["partial", fname, [e], {kw: e}] | ["partial2", expr(partial), {kw: e}]
-      | ["afpartial", fname, {kw: factory_fname}]
+      | ["afpartial", fname, {kw: factory_fname | expr(partial)}]
       | ["helper", idx, [e]] | ["exempt", fname, [e], {kw: e}]
       | ["tags", e, tagname] | ["builtin", name, [e]]
       | ["ifexp", cond_name, e, e] | ["listcomp", fname, kwname, n] | ["dictcomp", fname, kwname, n]
@@ -66,7 +66,7 @@ def render_expr(e):
     parts = [e[1]] + [f'{n}={render_expr(v)}' for n, v in e[2].items()]
     return ('arg_factory.partial(' if e[3] else 'functools.partial(') + ', '.join(parts) + ')'
   if k == 'afpartial':
-    parts = [e[1]] + [f'{n}={v}' for n, v in e[2].items()]
+    parts = [e[1]] + [f'{n}={v if isinstance(v, str) else render_expr(v)}' for n, v in e[2].items()]
     return 'arg_factory.partial(' + ', '.join(parts) + ')'
   if k == 'helper':
     return f'helper{e[1]}(' + ', '.join(render_expr(x) for x in e[2]) + ')'
@@ -247,7 +247,11 @@ def exprs(draw, depth, names, helpers, control_flow, allow_partial=True, pvars=(
     fname = draw(st.sampled_from(['things.f2', 'things.h1', 'things.Base', 'things.ident']))
     pk = FUNCS[fname][0]
     names_ = draw(st.lists(st.sampled_from(pk), unique=True, min_size=1, max_size=2))
-    return ['afpartial', fname, {n: draw(st.sampled_from(FACTORIES + BOUND_FACTORIES)) for n in names_}]
+    facs = {n: draw(st.sampled_from(FACTORIES + BOUND_FACTORIES)) for n in names_}
+    if names and draw(st.booleans()):
+      # a factory with an argument bound to a variable that is (possibly) used elsewhere as well
+      facs[names_[0]] = ['partial', 'things.make_rec', [], {'tag': ['var', draw(st.sampled_from(names))]}]
+    return ['afpartial', fname, facs]
   if kind == 'helper':
     return ['helper', draw(st.integers(0, helpers - 1)), [sub()] if draw(st.booleans()) else []]
   if kind == 'tags':
